@@ -305,7 +305,9 @@ class pyBQM:
 
         for submap in iter_safe_relabels(mapping, self.variables):
             for old, new in submap.items():
-                if old == new:
+                # like dict, test the hash first. Some labels, e.g. NumPy
+                # integers and tuples, do not compare to a bool
+                if hash(old) == hash(new) and old == new:
                     continue
 
                 # replace the linear bias
